@@ -26,13 +26,22 @@ def wl_bloom_pairs(ctx, rng, case):
     keys = gen.universe(rng, rng.randint(2, 18))
     est, rate, m, k = gen.bloom_geometry(rng)
     hname, hf = gen.pick_hash(rng, keys)
-    compat_kind = rng.choice(["same", "same", "same", "other_geometry", "other_hash", "identical", "both_empty"])
+    compat_kind = rng.choice(["same", "same", "same", "other_geometry", "other_geometry", "other_hash", "identical", "both_empty"])
     est2, rate2, m2, k2, hname2, hf2 = est, rate, m, k, hname, hf
     if compat_kind == "other_geometry":
         for _ in range(50):
             est2, rate2, m2, k2 = gen.bloom_geometry(rng)
             if (m2, k2) != (m, k):
                 break
+        if rng.random() < 0.5:
+            # near twins: a different number of bits that rounds up to the SAME number of bytes, same number of hashes
+            for _ in range(30):
+                tw = gen.near_twin(est, rate, m, k)
+                if tw:
+                    est2, rate2, m2, k2 = tw[0], rate, tw[1], k
+                    ctx.count("near_twin_geometry_pairs")
+                    break
+                est, rate, m, k = gen.bloom_geometry(rng)
     elif compat_kind == "other_hash":
         kinds = ["default_fnv_1a", "default_md5", "default_sha256", "decorated_int_sha512", "decorated_bytes_blake2b"]
         a, b = rng.sample(kinds, 2)
